@@ -505,13 +505,28 @@ def run(ctx):
         ga, gb = g.run(a), g.run(vec)
         n_git_runs += 2
         if ga != gb:
-            names = {n for n, _ in tbl}
-            vals = [v for _, v in tbl]
+            # aliases that can take part in this resolution: closure from the user's command over first words
+            last = {}
+            for n, v in tbl:
+                last[n] = v
+            e0 = oracle_expect(a)
+            todo = [e0[1]] if e0[0] == "same" and e0[1] else [n for n in a if n in last]
+            names = set()
+            while todo:
+                n = todo.pop()
+                if n in last and n not in names:
+                    names.add(n)
+                    todo.extend(w.strip("'\"") for w in last[n].split())
+            vals = [last[n] for n in names]
             if names & builtins:
                 known_seen.add("C18-K3 an alias that shadows a builtin is expanded by the proxy (git runs the builtin)")
             elif any(alias_value_edge(v) for v in vals):
                 known_seen.add("C18-K5 alias value tokenised differently from git's split_cmdline "
                                "(empty quoted argument, trailing blank or backslash, non-ASCII blank)")
+            elif opt_str(fields(out)["cmd"]) not in builtins and ga[0] == gb[0] and \
+                    "is not a git command" in ga[2] and "is not a git command" in gb[2]:
+                known_seen.add("C18-K7 alias expanding to an unknown command: git's diagnostic names the alias, "
+                               "through the proxy (which hands git the expansion) it does not")
             elif any(v.lstrip().startswith("-") for v in vals):
                 known_seen.add("C18-K6 alias expansion starting with a dash option is rescanned as global options "
                                "(git refuses or reports it)")
@@ -530,7 +545,7 @@ def run(ctx):
     log = os.path.join(ctx.scratch, "rec.log")
     with open(rec, "w") as f:
         f.write('#!/bin/sh\nif [ "$GITAI_SKIP_MANAGED_HOOKS" = 1 ] && [ -n "$C18_REC" ]; then\n'
-                '  for a in "$@"; do printf \'%s\\0\' "$a"; done >> "$C18_REC"; printf \'\\n\' >> "$C18_REC"\nfi\n'
+                '  { printf \'R\\0\'; for a in "$@"; do printf \'%s\\0\' "$a"; done; printf \'\\n\'; } >> "$C18_REC"\nfi\n'
                 'exec /usr/bin/git "$@"\n')
     os.chmod(rec, 0o755)
     os.makedirs(os.path.join(g.home, ".git-ai"), exist_ok=True)
@@ -555,7 +570,7 @@ def run(ctx):
         lines = [ln for ln in open(log, encoding="utf-8", errors="replace").read().split("\n") if ln]
         got = None
         if lines:
-            got = lines[-1].split("\0")[:-1]
+            got = lines[-1].split("\0")[1:-1]
             if len(got) >= 2 and got[0] == "-c" and got[1].startswith("core.hooksPath="):
                 got = got[2:]
         want_vec = inproc(str(i))
